@@ -265,7 +265,58 @@ def _run(ctx: C.Ctx):
                            "index": idx},
                           broken="correspondence tailShuffle ↔ SSPOR.fit shuffle (theorem tailShuffle_perm)")
     _nonfinite_costs_part(ctx)
+    _sspor_life_part(ctx)
     _sspoc_part(ctx)
+
+
+def _judge_life(ctx, h, idx):
+    """the ranking 'available after fitting' at every point of a model's life: after each call the ranking is a permutation of the
+    sensors of the model's own basis matrix and the selection is a distinct prefix of the reported length"""
+    from .. import sspor_hist as H
+    model, out = H.run_real(h)
+    if model is None:
+        return
+    unclaimed = False
+    for i, (status, obs) in enumerate(out):
+        if h.ops[i][0] in ("fit", "upd"):
+            # a REJECTED fit / update may leave the model half-way (finding F11, C19's business): nothing is claimed until the next
+            # accepted one
+            unclaimed = status != "ok"
+        if unclaimed or obs is None or not isinstance(obs["rank"], list) or obs["bm"] is None:
+            continue
+        nf = obs["bm"][0]
+        problems = []
+        if not gen.is_perm(obs["rank"], nf):
+            problems.append(f"ranking {obs['rank']} is not a permutation of range({nf}) (basis_matrix_ has {nf} sensor rows)")
+        sel = obs["sel"]
+        if isinstance(sel, list):
+            if sel != obs["rank"][: len(sel)] or len(set(sel)) != len(sel):
+                problems.append(f"selected sensors {sel} are not a distinct prefix of the ranking")
+            if obs["ns"] is not None and len(sel) != obs["ns"] and status == "ok":
+                problems.append(f"reported n_sensors={obs['ns']} but {len(sel)} sensors selected")
+        elif status == "ok":
+            problems.append(f"get_selected_sensors raises {sel} on a fitted model after an accepted call")
+        if problems:
+            ctx.violation("concrete", f"SSPOR after call {i} {h.ops[i]}: " + "; ".join(problems),
+                          {"signature": "sspor-life-ranking-or-selection", "history": h.describe(), "call": i, "index": idx})
+            return
+    if sum(1 for (st, _), op in zip(out, h.ops) if st == "ok" and op[0] in ("fit", "upd")) >= 2:
+        ctx.nontriv(("life", h.basis, h.opt, tuple(d.shape for d in h.datasets), tuple(op[0] for op in h.ops)))
+
+
+def _sspor_life_part(ctx):
+    from .. import sspor_hist as H
+    rng = ctx.rng
+    for idx in range(ctx.scale(80, 1000)):
+        if idx % 2:
+            h = H.gen_sweep_history(rng)
+            ctx.count("life:mode_sweep_across_outside_basis_refit")
+        else:
+            h = H.gen_history(rng, max_ops=ctx.scale(8, 16), allow_invalid=rng.random() < 0.4,
+                              kinds=("fit", "set", "upd", "upd", "bfit", "copy"), repeat_bias=0.5)
+            ctx.count("life:random_history")
+        ctx.evaluations += 1
+        _judge_life(ctx, h, idx)
 
 
 _NF = {"inf": float("inf"), "-inf": float("-inf"), "nan": float("nan")}
@@ -391,6 +442,9 @@ def replay(ctx: C.Ctx, payload):
     case = d.get("case", {})
     if "nonfinite_case" in d:
         _nonfinite_costs_case(ctx, d["nonfinite_case"], d.get("index", 0))
+    elif "history" in d:
+        from .. import sspor_hist as H
+        _judge_life(ctx, H.history_from_desc(d["history"]), d.get("index", 0))
     elif "kind" in case:
         oc = OptCase.from_desc(case)
         res = _check_opt_case(ctx, oc, d.get("index", 0))
